@@ -36,14 +36,37 @@ fn collect(dir: &std::path::Path, root: &str, out: &mut BTreeMap<String, Vec<u8>
     }
 }
 
+const STAMP_INPUT: i64 = 1_600_000_000;
+const STAMP_LEFTOVER: i64 = 1_600_000_100;
+
+fn set_mtime(path: &str, sec: i64) {
+    if let Ok(c) = std::ffi::CString::new(path) {
+        let ts = [libc::timespec { tv_sec: sec, tv_nsec: 0 }, libc::timespec { tv_sec: sec, tv_nsec: 0 }];
+        unsafe {
+            libc::utimensat(libc::AT_FDCWD, c.as_ptr(), ts.as_ptr(), 0);
+        }
+    }
+}
+
+fn mtime_of(path: &str) -> Option<i64> {
+    use std::os::unix::fs::MetadataExt;
+    std::fs::metadata(path).ok().map(|m| m.mtime())
+}
+
 /// Bring the scratch tree to exactly the job's disk image: files of an
 /// earlier job that the new image lacks are removed, files with the same
 /// name are rewritten in place (so their modification time is "now").
-fn materialise(root: &str, job: &Job) -> bool {
+///
+/// `same_tree`: the previous job of the plan had exactly this disk image (the
+/// same sources assembled again with another command line). Then the tree is
+/// left alone as far as possible — what the previous assembly wrote stays
+/// where it is and untouched files keep their modification times, as they
+/// would for a user who runs the assembler twice.
+fn materialise(root: &str, job: &Job, same_tree: bool) -> bool {
     let mut present = BTreeMap::new();
     collect(std::path::Path::new(root), root, &mut present);
     for p in present.keys() {
-        if !matches!(job.disk.nodes.get(p), Some(Node::File(_))) {
+        if !same_tree && !matches!(job.disk.nodes.get(p), Some(Node::File(_))) {
             let _ = std::fs::remove_file(format!("{}{}", root, p));
         }
     }
@@ -62,6 +85,9 @@ fn materialise(root: &str, job: &Job) -> bool {
                 }
                 if std::path::Path::new(&real).is_dir() {
                     let _ = std::fs::remove_dir_all(&real);
+                }
+                if same_tree && present.get(p) == Some(d) {
+                    continue;
                 }
                 if std::fs::write(&real, d).is_err() {
                     return false;
@@ -97,7 +123,8 @@ pub fn run_plan_realfs(plan: &SimPlan) -> PlanResult {
             for (pos, jidx) in tp.jobs.iter().enumerate() {
                 let job = &plan.jobs[*jidx];
                 let mut rec = Record { outcome: Outcome::Err, stdout: vec![], stderr: vec![], writes: vec![], new_files: vec![], events: vec![], fired: vec![], lib: LibRecord::default() };
-                if crate::procsim::materialisable(job).is_err() || !materialise(&root, job) {
+                let same_tree = pos > 0 && plan.jobs[tp.jobs[pos - 1]].disk == job.disk;
+                if crate::procsim::materialisable(job).is_err() || !materialise(&root, job, same_tree) {
                     rec.outcome = Outcome::Panic("SKIPPED: not materialisable".to_string());
                     runs.push(JobRun { job: *jidx, thread: 0, pos, reused_server: false, record: rec, seq_start: 0, seq_end: 0 });
                     server = None;
@@ -112,6 +139,21 @@ pub fn run_plan_realfs(plan: &SimPlan) -> PlanResult {
                 }
                 let mut before = BTreeMap::new();
                 collect(std::path::Path::new(&root), &root, &mut before);
+                // Same tree as the previous job: its outputs are still there.
+                // Every file gets a modification time in the past — inputs
+                // older than leftovers, as after an ordinary earlier run — so
+                // that "was this file written by this job" can be read off
+                // the timestamp even when the bytes are the same.
+                let mut leftovers: Vec<String> = Vec::new();
+                if same_tree {
+                    for p in before.keys() {
+                        let is_input = matches!(job.disk.nodes.get(p), Some(Node::File(_)));
+                        set_mtime(&format!("{}{}", root, p), if is_input { STAMP_INPUT } else { STAMP_LEFTOVER });
+                        if !is_input {
+                            leftovers.push(p.clone());
+                        }
+                    }
+                }
                 // The server object is an input the embedding host passes in:
                 // it may legitimately remember what it read for as long as it
                 // lives. It is therefore only reused when nothing on disk
@@ -145,7 +187,8 @@ pub fn run_plan_realfs(plan: &SimPlan) -> PlanResult {
                 let mut after = BTreeMap::new();
                 collect(std::path::Path::new(&root), &root, &mut after);
                 for (p, d) in &after {
-                    if before.get(p) != Some(d) {
+                    let rewritten_same_bytes = leftovers.contains(p) && mtime_of(&format!("{}{}", root, p)) != Some(STAMP_LEFTOVER);
+                    if before.get(p) != Some(d) || rewritten_same_bytes {
                         rec.writes.push(WriteRec { spelling: p.clone(), resolved: p.clone(), data: d.clone(), complete: true });
                     }
                 }
